@@ -301,6 +301,31 @@ func (r *runner) matchBlock() int {
 	return -1
 }
 
+// progressID tells which script item a Progress packet is: by the counter that carries the item's number, or - when
+// the packet carries none at this revision - the next Progress item of the script after the last one reported.
+func (r *runner) progressID(p proto.Progress) int {
+	id := -1
+	switch {
+	case p.Rows > 0:
+		id = int(p.Rows)
+	case p.WroteRows > 0:
+		id = int(p.WroteRows)
+	case p.ElapsedNs > 0:
+		id = int(p.ElapsedNs)
+	default:
+		for i := r.lastID["progress"] + 1; i <= len(r.sc.Cfg.Script); i++ {
+			if r.sc.Cfg.Script[i-1].K == "prog" {
+				id = i
+				break
+			}
+		}
+	}
+	if id > 0 {
+		r.lastID["progress"] = id
+	}
+	return id
+}
+
 func idFromSuffix(s, prefix string) int {
 	var i, j int
 	if _, err := fmt.Sscanf(s, prefix+"-%d-%d", &i, &j); err != nil {
@@ -434,7 +459,7 @@ func (r *runner) query() ch.Query {
 		}
 	}
 	if r.present("progress") {
-		q.OnProgress = func(ctx context.Context, p proto.Progress) error { return r.recvCb("progress", int(p.Rows)) }
+		q.OnProgress = func(ctx context.Context, p proto.Progress) error { return r.recvCb("progress", r.progressID(p)) }
 	}
 	if r.present("profile") {
 		q.OnProfile = func(ctx context.Context, p proto.Profile) error { return r.recvCb("profile", int(p.Rows)) }
